@@ -331,3 +331,95 @@ def reachable_under (repo, module, g, node, env, cls=None):
     if v is None: continue
     if v != pol: return False
   return True
+
+# ---------------------------------------------------------------------------
+# path-sensitive reachability under an environment
+
+class Env(object):
+  """Assignment of values to expressions.  Keys are expression texts or
+  matcher callables (ast -> bool).  A value may be any Python object; use
+  truthy/falsy ints or bools for predicates."""
+  def __init__ (self, exact=None, matchers=None):
+    self.exact = dict(exact or {}); self.matchers = list(matchers or [])
+  def lookup (self, e):
+    t = norm(e)
+    if t in self.exact: return True, self.exact[t]
+    for m, v in self.matchers:
+      try:
+        if m(e): return True, v
+      except Exception: pass
+    return False, None
+
+def eval_env (repo, module, e, env, cls=None):
+  hit, v = env.lookup(e)
+  if hit: return v
+  if isinstance(e, ast.Constant): return e.value
+  if isinstance(e, (ast.Tuple, ast.List, ast.Set)):
+    vals = [eval_env(repo, module, x, env, cls) for x in e.elts]
+    return tuple(vals) if isinstance(e, ast.Tuple) else (list(vals) if isinstance(e, ast.List) else set(vals))
+  if isinstance(e, ast.UnaryOp):
+    v = eval_env(repo, module, e.operand, env, cls)
+    if isinstance(e.op, ast.Not): return not v
+    if isinstance(e.op, ast.USub): return -v
+    if isinstance(e.op, ast.Invert): return ~v
+  if isinstance(e, ast.BoolOp):
+    r = None
+    for x in e.values:
+      try: v = eval_env(repo, module, x, env, cls)
+      except _Unknown:
+        # and: a later false decides; or: a later true decides
+        r = _Unknown; continue
+      if isinstance(e.op, ast.And) and not v: return v
+      if isinstance(e.op, ast.Or) and v: return v
+      if r is not _Unknown: r = v
+    if r is _Unknown: raise _Unknown()
+    return r
+  if isinstance(e, ast.BinOp):
+    a = eval_env(repo, module, e.left, env, cls); b = eval_env(repo, module, e.right, env, cls)
+    try:
+      op = type(e.op)
+      if op is ast.Add: return a + b
+      if op is ast.Sub: return a - b
+      if op is ast.BitAnd: return a & b
+      if op is ast.BitOr: return a | b
+      if op is ast.LShift: return a << b
+      if op is ast.RShift: return a >> b
+      if op is ast.Mult: return a * b
+    except Exception: raise _Unknown()
+  if isinstance(e, ast.Compare):
+    left = eval_env(repo, module, e.left, env, cls)
+    for op, rt in zip(e.ops, e.comparators):
+      right = eval_env(repo, module, rt, env, cls)
+      o = type(op)
+      try:
+        ok = {ast.Eq: lambda: left == right, ast.NotEq: lambda: left != right, ast.Lt: lambda: left < right,
+              ast.LtE: lambda: left <= right, ast.Gt: lambda: left > right, ast.GtE: lambda: left >= right,
+              ast.In: lambda: left in right, ast.NotIn: lambda: left not in right,
+              ast.Is: lambda: left is right, ast.IsNot: lambda: left is not right}[o]()
+      except Exception: raise _Unknown()
+      if not ok: return False
+      left = right
+    return True
+  v = repo.try_const(module, e, cls, default=_Unknown)
+  if v is _Unknown: raise _Unknown()
+  return v
+
+def reach_under (repo, module, g, env, cls=None, start=None, exc=False, local_defs=None):
+  """nodes reachable from entry when every atomic test that evaluates under
+  `env` takes only its evaluated branch.  Local names with a single constant-
+  evaluable definition are NOT followed (keep env explicit)."""
+  start = start or g.entry
+  seen = set([start]); st = [start]
+  while st:
+    n = st.pop()
+    succ = n.succ
+    if n.kind == 'cond':
+      try: v = bool(eval_env(repo, module, n.ast, env, cls))
+      except _Unknown: v = None
+      except Exception: v = None
+      if v is not None:
+        succ = [(m, l) for m, l in n.succ if l == v or l == 'exc']
+    for m, l in succ:
+      if l == 'exc' and not exc: continue
+      if m not in seen: seen.add(m); st.append(m)
+  return seen
